@@ -70,6 +70,59 @@ theorem leaves_in_flight_only_by_finish {s s' : State} {a : Action} {r : Nat} {q
 
 example : ∃ s, Reachable s ∧ (s.reqs[2]?).map (fun q => q.pc.inFlightOn 0) = some true := witness exA (by decide)
 
+/-- **unfillable_dial_info_touches_no_counter** — when the selected upstream's dial address cannot be
+    filled in for this request (hosts.go fillDialInfo: a request placeholder expanding to a named
+    port, a port range, nothing), the loop iteration returns at once (reverseproxy.go:541-544): the
+    step is enabled at the top of the loop, ends the request, and leaves every in-flight count,
+    every failure count, the failure log and the pool untouched — `countRequest(1)` belongs to
+    `reverseProxy`, which is never entered.  Since the step is part of `Model.step`, `inflight_eq`
+    ("in-flight = requests between send and return") holds for all interleavings that include it;
+    the regenerated fact `dec_is_deferred_right_after_inc_in_source` pins the increment to the
+    statement right before the deferred decrement. -/
+theorem unfillable_dial_info_touches_no_counter {s : State} {r : Nat} {q : Req} (hq : s.reqs[r]? = some q)
+    (hpc : q.pc = .start) :
+    ∃ s', step s (.dialInfoFails r) = some s' ∧ s'.inflight = s.inflight ∧ s'.fails = s.fails ∧
+      s'.log = s.log ∧ s'.pool = s.pool ∧ pcOf s' r = some .done := by
+  have hb : step s (.dialInfoFails r) = some { s with reqs := s.reqs.set r { q with pc := .done } } := by
+    show stepDialInfoFails s r = some _
+    unfold stepDialInfoFails
+    rw [hq]
+    simp only []
+    split
+    · rfl
+    · simp_all
+  exact ⟨_, hb, rfl, rfl, rfl, rfl, by simp [pcOf, get_set_self hq]⟩
+
+/-- a handler with max_requests 1 whose first upstream is undialable for request 0: the request
+    returns, nothing is in flight, and the next request is sent there (the seeded change
+    C09-request-counted-at-selection would leave the upstream full for ever) -/
+example : ((runSteps dinit [.load [0] { pA with maxReq := 1 } [], .newReqBad true 0, .newReq true]).map fun d =>
+    (d.s.inflight 0, sendingCount d.s 0, d.s.reqs.map (·.pc))) = some (1, 1, [Pc.done, Pc.sending 0]) := by decide
+
+/-- **inflight = requests between send and return, with the dial-info exit** — a reachable state
+    followed by the step "dial info cannot be filled in" is a state in which every Host's in-flight
+    count still equals the number of requests being sent to it, and that number is the one before the
+    step: the request that returned was never counted and never sent -/
+theorem inflight_exact_across_unfillable_dial_info {s s' : State} {r : Nat} (h : Reachable s)
+    (hs : step s (.dialInfoFails r) = some s') (o : HostId) :
+    s'.inflight o = (sendingCount s' o : Int) ∧ sendingCount s' o = sendingCount s o := by
+  have h' : Reachable s' := Reachable.step _ h hs
+  have e1 := inflight_eq h o
+  have e2 := inflight_eq h' o
+  have hi : s'.inflight = s.inflight := by
+    have hs2 : stepDialInfoFails s r = some s' := hs
+    unfold stepDialInfoFails at hs2
+    split at hs2
+    · split at hs2
+      · cases hs2; rfl
+      · cases hs2
+    · cases hs2
+  rw [hi] at e2
+  exact ⟨by rw [hi]; exact e2, by omega⟩
+
+example : ((runSteps dinit [.load [0, 1] pA [], .newReq true, .newReqBad true 0, .newReqBad false 0]).map fun d =>
+    (d.s.inflight 0, sendingCount d.s 0, d.s.reqs.map (·.pc))) = some (1, 1, [Pc.sending 0, Pc.done, Pc.done]) := by decide
+
 /-- per request: every `countRequest(1)` it executed has been matched by exactly one
     `countRequest(-1)` as soon as it is not in flight, whatever the outcomes were -/
 theorem incs_eq_decs {s : State} (h : Reachable s) {q : Req} (hq : q ∈ s.reqs) (hn : q.pc.inFlight = false) :
